@@ -57,6 +57,22 @@ def mk_rv(t, ref, addr=False):
     return Opaque('rv', (t, ref, addr))
 
 
+# the third component: False / True (addressable) / 2 (addressable, read-only: reached through an unexported field)
+# / 3 (read-only, not addressable)
+def is_addr(a):
+    return a is True or a == 2
+
+
+def is_ro(a):
+    return a == 2 or a == 3
+
+
+def with_ro(a, ro):
+    if not ro:
+        return a
+    return 2 if is_addr(a) else 3
+
+
 def rv_parts(v):
     if type(v) is not Opaque or v.kind != 'rv':
         if type(v) is Struct:
@@ -160,17 +176,17 @@ def _v_isvalid(I, st, args):
 
 @model('(reflect.Value).Elem')
 def _v_elem(I, st, args):
-    t, ref, _ = rv_parts(args[0])
+    t, ref, a0 = rv_parts(args[0])
     k = tkind(I, t)
     v = rv_get(I, st, args[0])
     if k == K_PTR:
         if v is None:
             return Struct((None, None, 0))
-        return mk_rv(telem(I, t), ('ptr', v), True)
+        return mk_rv(telem(I, t), ('ptr', v), with_ro(True, is_ro(a0)))
     if k == K_IFACE:
         if v is None:
             return Struct((None, None, 0))
-        return mk_rv(v.t, ('val', v.v))
+        return mk_rv(v.t, ('val', v.v), with_ro(False, is_ro(a0)))
     raise GoPanic('reflect: call of reflect.Value.Elem on %s Value' % KIND_NAMES[k])
 
 
@@ -192,10 +208,12 @@ def _v_field(I, st, args):
     if is_sym(i) or not (0 <= i < len(fs)):
         raise GoPanic('reflect: Field index out of range')
     ft = fs[i]['type']
+    nm = fs[i].get('name', '')
+    ro = is_ro(addr) or (nm[:1].islower() or nm[:1] == '_')
     if ref[0] == 'ptr':
         p = ref[1]
-        return mk_rv(ft, ('ptr', Ptr(p.obj, p.path + (i,))), addr)
-    return mk_rv(ft, ('val', ref[1][i]))
+        return mk_rv(ft, ('ptr', Ptr(p.obj, p.path + (i,))), with_ro(True if is_addr(addr) else False, ro))
+    return mk_rv(ft, ('val', ref[1][i]), with_ro(False, ro))
 
 
 @model('(reflect.Value).Index')
@@ -210,13 +228,13 @@ def _v_index(I, st, args):
         n = 0 if v is None else v.len
         if not (0 <= i < n):
             raise GoPanic('reflect: slice index out of range')
-        return mk_rv(telem(I, t), ('ptr', Ptr(v.obj, v.path + (v.off + i,))), True)
+        return mk_rv(telem(I, t), ('ptr', Ptr(v.obj, v.path + (v.off + i,))), with_ro(True, is_ro(addr)))
     if k == K_ARRAY:
         if not (0 <= i < len(v)):
             raise GoPanic('reflect: array index out of range')
         if ref[0] == 'ptr':
             return mk_rv(telem(I, t), ('ptr', Ptr(ref[1].obj, ref[1].path + (i,))), addr)
-        return mk_rv(telem(I, t), ('val', v[i]))
+        return mk_rv(telem(I, t), ('val', v[i]), with_ro(False, is_ro(addr)))
     if k == K_STRING:
         if not (0 <= i < len(v)):
             raise GoPanic('reflect: string index out of range')
@@ -241,20 +259,34 @@ def _v_len(I, st, args):
 @model('(reflect.Value).Addr')
 def _v_addr(I, st, args):
     t, ref, addr = rv_parts(args[0])
-    if ref[0] != 'ptr' or not addr:
+    if ref[0] != 'ptr' or not is_addr(addr):
         raise GoPanic('reflect.Value.Addr of unaddressable value')
-    return mk_rv('*' + t, ('val', ref[1]))
+    return mk_rv('*' + t, ('val', ref[1]), with_ro(False, is_ro(addr)))
 
 
-@model('(reflect.Value).CanAddr', '(reflect.Value).CanSet')
+@model('(reflect.Value).CanAddr')
 def _v_canaddr(I, st, args):
     t, ref, addr = rv_parts(args[0])
-    return ref[0] == 'ptr' and addr
+    return ref[0] == 'ptr' and is_addr(addr)
+
+
+@model('(reflect.Value).CanSet')
+def _v_canset(I, st, args):
+    t, ref, addr = rv_parts(args[0])
+    return ref[0] == 'ptr' and addr is True
+
+
+@model('(reflect.Value).CanInterface')
+def _v_caninterface(I, st, args):
+    t, ref, addr = rv_parts(args[0])
+    return not is_ro(addr)
 
 
 @model('(reflect.Value).Interface')
 def _v_interface(I, st, args):
-    t, ref, _ = rv_parts(args[0])
+    t, ref, a0 = rv_parts(args[0])
+    if is_ro(a0):
+        raise GoPanic('reflect.Value.Interface: cannot return value obtained from unexported field or method')
     v = rv_get(I, st, args[0])
     if tkind(I, t) == K_IFACE:
         return v
@@ -279,7 +311,9 @@ def _v_iszero(I, st, args):
 
 def _settable(args, what):
     t, ref, addr = rv_parts(args[0])
-    if ref[0] != 'ptr' or not addr:
+    if is_ro(addr):
+        raise GoPanic('reflect: reflect.Value.%s using value obtained using unexported field' % what)
+    if ref[0] != 'ptr' or not is_addr(addr):
         raise GoPanic('reflect: reflect.Value.%s using unaddressable value' % what)
     return t, ref[1]
 
